@@ -232,6 +232,7 @@ func runC24(c *core.Ctx) {
 					continue
 				}
 				roles := c24Roles[f.Obj.Name()]
+				frames := c24helperFrames(f, w)
 				// --- every call on the wrapped object
 				for _, cs := range f.Calls() {
 					if cs.Recv() == nil || !c24isUnder(f, w, cs.Recv()) {
@@ -249,6 +250,57 @@ func runC24(c *core.Ctx) {
 						}
 						role := croles[i]
 						key := fmt.Sprintf("%s|%s %s", who, m, role)
+						if role == "key" || role == "limit" {
+							// the value is computed by a plain helper from the receiver's prefix and the method's own
+							// parameters: decided on the helper's returns, with its parameters bound (inlined view)
+							if fr, idx := c24viewOf(f, frames, a); fr != nil {
+								exprs, pts, okR := c24results(fr.G, idx)
+								if !okR {
+									c.Undecided(key, "T9 KeyFlow", a.Pos(), "the helper "+short(fr.G.Name)+" does not spell out its results on every return")
+									continue
+								}
+								hname := short(fr.G.Name)
+								if role == "limit" {
+									nLimit++
+									var lim *types.Var
+									for pv, pi := range fr.keys {
+										if pi == 1 {
+											lim = pv
+										}
+									}
+									if f.Obj.Name() != "Compact" || lim == nil {
+										c.Undecided(key, "T9 KeyFlow", a.Pos(), "the compaction end is computed by "+hname+" without the method's limit parameter")
+										continue
+									}
+									for k, e := range exprs {
+										c24compactEndIn(c, who, fr, "<prefix>", pts[k], e, lim)
+									}
+									continue
+								}
+								if w.dir == "up" {
+									nKeyUp++
+								} else {
+									nKeyDown++
+								}
+								for _, e := range exprs {
+									inner, ok := fr.wrapCall(e, wrapFn)
+									if !ok {
+										c.Fail(key, "T9 KeyFlow", e.Pos(), fmt.Sprintf("the key passed to %s is computed by %s as %s, not %s(<key>, %s.prefix): the operation leaves the table's key space", short(cs.Name), hname, exprStr(e), short(wrapFn), recv.Name()))
+										continue
+									}
+									pi := fr.keyParam(inner)
+									okSrc := pi >= 0
+									if okSrc && f.Obj.Name() == m {
+										okSrc = pi == i
+									} else if okSrc {
+										okSrc = pi < len(roles) && roles[pi] == "key"
+									}
+									c.Check(okSrc, key, "T9 KeyFlow", e.Pos(), fmt.Sprintf("%s(%s, <prefix>) in %s, with the method's own key parameter and the receiver's prefix handed to it", short(wrapFn), exprStr(inner), hname),
+										fmt.Sprintf("%s is applied to %s in %s, which is not this method's key parameter for that position", short(wrapFn), exprStr(inner), hname))
+								}
+								continue
+							}
+						}
 						if role == "key" {
 							// k := prefixed(key, t.prefix); underlying.Put(k, v)
 							if lv := varOf(f, a); lv != nil && c24paramIndex(f, lv) < 0 {
@@ -328,33 +380,26 @@ func runC24(c *core.Ctx) {
 					if pv == nil || !c24isBytes(pv.Type()) {
 						continue
 					}
-					okUses := map[*ast.Ident]bool{}
-					f.InspectOwn(func(n ast.Node) bool {
-						switch x := n.(type) {
-						case *ast.CallExpr:
-							if inner, ok := c24wrapCall(f, w, x, wrapFn); ok {
-								if id, isID := inner.(*ast.Ident); isID {
-									okUses[id] = true
-								}
-							}
-						case *ast.BinaryExpr:
-							if x.Op == token.EQL || x.Op == token.NEQ {
-								for _, pair := range [][2]ast.Expr{{x.X, x.Y}, {x.Y, x.X}} {
-									if id, isID := ast.Unparen(pair[0]).(*ast.Ident); isID && core.IsNil(f.Info(), pair[1]) {
-										okUses[id] = true
-									}
-								}
-							}
-						}
-						return true
-					})
+					// handed to a helper that has a frame: the use is judged inside the helper, on its parameter
+					viaHelper := map[*ast.Ident]bool{}
 					stray := token.NoPos
-					f.InspectOwn(func(n ast.Node) bool {
-						if id, ok := n.(*ast.Ident); ok && f.Info().Uses[id] == types.Object(pv) && !okUses[id] {
-							stray = id.Pos()
+					for call, fr := range frames {
+						for j, a := range call.Args {
+							id, isID := ast.Unparen(a).(*ast.Ident)
+							if !isID || f.Info().Uses[id] != types.Object(pv) {
+								continue
+							}
+							viaHelper[id] = true
+							if hp := fr.G.Param(j); hp != nil {
+								if s := c24strayUse(fr, hp, wrapFn, nil); s != token.NoPos && stray == token.NoPos {
+									stray = s
+								}
+							}
 						}
-						return true
-					})
+					}
+					if s := c24strayUse(c24methodFrame(f, w), pv, wrapFn, viaHelper); s != token.NoPos {
+						stray = s
+					}
 					c.Check(stray == token.NoPos, fmt.Sprintf("%s|key parameter %d used only through %s", who, i, short(wrapFn)), "T9 KeyFlow (taint)", stray,
 						"every use of the key parameter is the first argument of "+short(wrapFn)+"(·, "+recv.Name()+".prefix) or a nil test", "the raw key parameter "+pv.Name()+" is used outside "+short(wrapFn)+"(·, "+recv.Name()+".prefix): a key can cross the table boundary with the wrong prefix state")
 				}
@@ -521,6 +566,7 @@ func runC24(c *core.Ctx) {
 	})
 
 	c24Inc(c)
+	c24Alias(c)
 }
 
 // c24checkCompactEnd decides the second argument of the underlying Compact: incPrefix(recv.prefix) exactly on the
@@ -538,11 +584,22 @@ func c24checkCompactEnd(c *core.Ctx, f *core.FuncInfo, w c24wrapper, cs *core.Ca
 		c.Undecided(key, rule, f.Pos(), "the limit parameter is unnamed or reassigned")
 		return
 	}
+	c24compactEndIn(c, who, c24methodFrame(f, w), f.Recv().Name()+".prefix", cs.Pt, arg, limit)
+}
+
+// c24compactEndIn decides one use (the underlying call, or a return of the helper that computes the
+// end) of the compaction end in the frame fr: usePt is where the value is consumed, limit the variable
+// of the frame that holds the method's limit parameter.
+func c24compactEndIn(c *core.Ctx, who string, fr *c24frame, pfxName string, usePt core.Point, arg ast.Expr, limit *types.Var) {
+	f := fr.G
+	key := who + "|Compact end"
+	rule := "T9 KeyFlow + T4 GuardedBy (reaching definitions)"
+	cs := struct{ Pt core.Point }{usePt}
 	classify := func(e ast.Expr) string {
-		if inner, ok := c24wrapCall(f, w, e, c24Prefixed); ok && varOf(f, inner) == limit {
+		if inner, ok := fr.wrapCall(e, c24Prefixed); ok && varOf(f, inner) == limit {
 			return "PREF"
 		}
-		if call := isCallTo(f, e, c24IncPfx); call != nil && len(call.Args) == 1 && c24recvField(f, call.Args[0], w.prefix) {
+		if call := isCallTo(f, e, c24IncPfx); call != nil && len(call.Args) == 1 && fr.isPrefix(call.Args[0]) {
 			return "INC"
 		}
 		return ""
@@ -563,7 +620,7 @@ func c24checkCompactEnd(c *core.Ctx, f *core.FuncInfo, w c24wrapper, cs *core.Ca
 			}
 			k := classify(a.RHS)
 			if a.RHS == nil || k == "" {
-				c.Fail(key, rule, a.Stmt.Pos(), "the compaction end is set to "+exprStr(a.RHS)+", neither prefixed(limit, "+f.Recv().Name()+".prefix) nor incPrefix("+f.Recv().Name()+".prefix): the compacted range is not the table's")
+				c.Fail(key, rule, a.Stmt.Pos(), "the compaction end is set to "+exprStr(a.RHS)+", neither prefixed(limit, "+pfxName+") nor incPrefix("+pfxName+"): the compacted range is not the table's")
 				return
 			}
 			defs = append(defs, def{k, a.Pt, false, a.Stmt.Pos()})
@@ -571,7 +628,7 @@ func c24checkCompactEnd(c *core.Ctx, f *core.FuncInfo, w c24wrapper, cs *core.Ca
 	} else {
 		k := classify(arg)
 		if k == "" {
-			c.Fail(key, rule, arg.Pos(), "the compaction end is "+exprStr(arg)+", neither prefixed(limit, "+f.Recv().Name()+".prefix) nor incPrefix("+f.Recv().Name()+".prefix): the compacted range is not the table's")
+			c.Fail(key, rule, arg.Pos(), "the compaction end is "+exprStr(arg)+", neither prefixed(limit, "+pfxName+") nor incPrefix("+pfxName+"): the compacted range is not the table's")
 			return
 		}
 		defs = append(defs, def{k, cs.Pt, true, arg.Pos()})
@@ -620,6 +677,6 @@ func c24checkCompactEnd(c *core.Ctx, f *core.FuncInfo, w c24wrapper, cs *core.Ca
 		}
 	}
 	if ok {
-		c.Pass(key, rule, fmt.Sprintf("%d definition(s) of the end: incPrefix(%s.prefix) reaches the call exactly on limit == nil paths, prefixed(limit, %s.prefix) on the others", len(defs), f.Recv().Name(), f.Recv().Name()))
+		c.Pass(key, rule, fmt.Sprintf("%d definition(s) of the end: incPrefix(%s) reaches the use exactly on limit == nil paths, prefixed(limit, %s) on the others", len(defs), pfxName, pfxName))
 	}
 }
